@@ -132,6 +132,19 @@ class SymCtx(BaseCtx):
     def equal(self, a, b):
         return self.ops.equal(a, b)
 
+    def eval_source(self, src, env):
+        """evaluate a Python *expression* given as source text (generated code) under the interpreter"""
+        import ast as _ast
+        try:
+            node = _ast.parse(src, mode="eval").body
+        except SyntaxError as e:
+            return CallResult(True, exc=e)
+        e = pyvc.Env(dict(env))
+        try:
+            return CallResult(False, value=self.interp.eval(node, e))
+        except pyvc.Raised as r:
+            return CallResult(True, exc=r.exc)
+
 
 class ConcreteCtx(BaseCtx):
     """native execution of the real function under CPython on concrete inputs (replay / runtime contract)"""
@@ -229,6 +242,24 @@ class ConcreteCtx(BaseCtx):
             except Exception as e:      # noqa -- the real code's exception is the observation
                 res = CallResult(True, exc=e)
         self.trace.append(snapshot(("raise", type(res.exc).__name__) if res.raised else ("ret", res.value, args)))
+        return res
+
+    def eval_source(self, src, env):
+        if self.interpret:
+            import ast as _ast
+            try:
+                node = _ast.parse(src, mode="eval").body
+                res = CallResult(False, value=self.interp.eval(node, pyvc.Env(dict(env))))
+            except SyntaxError as e:
+                res = CallResult(True, exc=e)
+            except pyvc.Raised as r:
+                res = CallResult(True, exc=r.exc)
+        else:
+            try:
+                res = CallResult(False, value=eval(src, dict(env)))
+            except Exception as e:      # noqa
+                res = CallResult(True, exc=e)
+        self.trace.append(snapshot(("raise", type(res.exc).__name__) if res.raised else ("ret", res.value)))
         return res
 
     def check(self, label, cond, kind="post", info=None):
